@@ -517,3 +517,23 @@ def gen_staged_gate(rng, tier):
             lines += ["cb net reset", f"runfrom {rng.choice(['dfs', 'bfs'])} full inv=none goal=noev prune=none collect=none"]
         out.append((f"sg{i}", lines))
     return out
+
+
+def gen_order_sensitive(rng, tier):
+    """two or three different messages race to one receiver that copies every payload to its local outbox: sibling branches reach
+    outboxes of equal length and different content (what a restore has to replace, not to trim); every strategy and cache mode,
+    optionally a second stage from the collected states"""
+    out = []
+    for i in range(10 if tier == "quick" else 150):
+        k = rng.choice([2, 3])
+        lines = ["refenum"] + [f"node n{j}" for j in range(k + 1)] + [f"proc p{j} n{j}" for j in range(k)] + [f"proc p{k} n{k}{' rec' if rng.random() < 0.5 else ''}"]
+        for j in range(k):
+            lines.append(f"rule p{j} 0 L:m0 1 S:m{j + 1}:=x{j}:p{k}")
+        for j in range(k):
+            lines.append(f"rule p{k} 0 M:m{j + 1} 0 L:m{j + 1}:$")
+        lines += [f"cb local p{j} m0 =go" for j in range(k)]
+        lines.append(f"run {rng.choice(['bfs', 'bfs', 'dfs'])} {rng.choice(['full', 'partial', 'disabled'])} inv=none goal=noev prune=none collect={rng.choice(['always', f'out:p{k}:1', 'noev'])}")
+        if rng.random() < 0.5:
+            lines.append(f"runfrom {rng.choice(['bfs', 'dfs'])} {rng.choice(['full', 'disabled'])} inv=none goal=noev prune=none collect=noev")
+        out.append((f"os{i}", lines))
+    return out
